@@ -29,6 +29,7 @@ SITES = [
     dict(id="identityFit", file="pysensors/basis/_identity.py", cls="Identity", func="fit", pyargs=[]),
     dict(id="ssporCtor", file="pysensors/reconstruction/_sspor.py", cls="SSPOR", func="__init__", pyargs=["n_sensors"]),
     dict(id="ssporSetN", file="pysensors/reconstruction/_sspor.py", cls="SSPOR", func="set_number_of_sensors", pyargs=["n_sensors"]),
+    dict(id="ssporValidateNSensors", file="pysensors/reconstruction/_sspor.py", cls="SSPOR", func="_validate_n_sensors", pyargs=[]),
     dict(id="ssporUpdateModes", file="pysensors/reconstruction/_sspor.py", cls="SSPOR", func="update_n_basis_modes", pyargs=["n_basis_modes"]),
     dict(id="sspocUpdateSensors", file="pysensors/classification/_sspoc.py", cls="SSPOC", func="update_sensors", pyargs=["n_sensors"],
          stop_after="self.n_sensors = n_sensors"),
